@@ -68,6 +68,9 @@ pub fn run(dir: PathBuf, clock: Option<u64>, gate_gc: bool, http: bool, serve: b
         // the three processor serve loops, wired as /repo/src/main.rs does (one engine, cloned)
         ready["last"] = json!(store.read_sync(None, None, None).last().map(|f| f.id.to_string()));
         let engine = xs::nu::Engine::new().expect("engine");
+        // the hook log tells when each serve loop's start-up scan has sent its threshold: a frame
+        // appended after that is live for the loop (it is behind the threshold in its channel)
+        verif::set_log(true);
         {
             let (store, engine) = (store.clone(), engine.clone());
             rt.spawn(async move {
@@ -86,6 +89,32 @@ pub fn run(dir: PathBuf, clock: Option<u64>, gate_gc: bool, http: bool, serve: b
                 let _ = xs::commands::serve(store, engine).await;
             });
         }
+    }
+    if serve {
+        let deadline = std::time::Instant::now() + Duration::from_secs(20);
+        let mut loops: Vec<String> = vec![];
+        let mut done: Vec<String> = vec![];
+        loop {
+            for ev in verif::take_log() {
+                let actor = ev["actor"].as_str().unwrap_or("").to_string();
+                match ev["ev"].as_str().unwrap_or("") {
+                    // the serve loops read all contexts; handler instances always name theirs
+                    "read.subscribed" if ev["follow"] == json!(true) && ev["ctx"].is_null() => loops.push(actor),
+                    "hist.threshold" => done.push(actor.trim_end_matches(".hist").to_string()),
+                    _ => {}
+                }
+            }
+            if loops.len() >= 3 && loops.iter().all(|r| done.contains(r)) {
+                break;
+            }
+            if std::time::Instant::now() > deadline {
+                println!("{}", json!({"ready": false, "err": "serve loops did not reach their threshold"}));
+                std::process::exit(3);
+            }
+            std::thread::sleep(Duration::from_micros(300));
+        }
+        verif::set_log(false);
+        let _ = verif::take_log();
     }
     let stdin = std::io::stdin();
     let stdout = std::io::stdout();
